@@ -42,7 +42,7 @@ def node(depth):
     if depth == 0:
         return st.fixed_dictionaries({"opts": opts, "subs": st.just({}), "required": st.just(True)})
     return st.fixed_dictionaries({"opts": opts, "required": st.booleans(),
-                                  "subs": st.one_of(st.just({}), st.dictionaries(st.sampled_from(NAMES), st.deferred(lambda: node(depth - 1)), min_size=1, max_size=3))})
+                                  "subs": st.one_of(st.just({}), st.dictionaries(st.sampled_from(NAMES), st.deferred(lambda: node(depth - 1)), min_size=1, max_size=3 if depth < 2 else 2))})
 
 
 @G._memo
@@ -75,7 +75,8 @@ def case_strategy():
         return st.composite(lambda draw: build(draw))()
 
     top = st.fixed_dictionaries({"opts": st.dictionaries(st.sampled_from(OPTS), st.integers(0, 9), max_size=2), "required": st.booleans(),
-                                 "subs": st.dictionaries(st.sampled_from(NAMES), node(1), min_size=1, max_size=3)})
+                                 # (two levels below the root in three cases out of four, three levels in the fourth)
+                                 "subs": st.integers(0, 3).flatmap(lambda i: st.dictionaries(st.sampled_from(NAMES), node(1 if i else 2), min_size=1, max_size=3 if i else 2))})
     return top.flatmap(with_inputs)
 
 
